@@ -471,7 +471,7 @@ fn gen_target(rng: &mut Rng, v6: bool, unique: usize) -> TargetSpec {
 }
 
 /// Hosts that denote no IP address in any textual form (and are no plausible host name either).
-const BAD_HOSTS: [&str; 27] = [
+const BAD_HOSTS: [&str; 33] = [
     // numbers in the forms only the old C resolver functions read (octal, hexadecimal, fewer than
     // four parts, one 32-bit number): no IPv4 address as the protocol buffers contract or Rust's
     // parser know it, and read as one they turn into ANOTHER address than the digits suggest
@@ -502,6 +502,14 @@ const BAD_HOSTS: [&str; 27] = [
     "1:2:3:4:5:6:7",
     "١.٢.٣.٤",
     "1.2.3.4, 5.6.7.8",
+    // brackets belong to "host:port" texts and there only around IPv6: a half-open pair, a pair
+    // around IPv4 and a doubled pair are no address in any reading
+    "[::1",
+    "2001:db8::7]",
+    "[10.1.2.3]",
+    "10.1.2.3]",
+    "[[2001:db8::7]]",
+    "[]",
 ];
 
 /// Turns a well-formed spec into a malformed (or ambiguous) one of the given class.
